@@ -126,7 +126,7 @@ PROPS = {
         ],
     },
     "C12": {
-        "workloads": [("order", "c12", 1800, 30000, None)],
+        "workloads": [("order", "c12", 1800, 30000, None), ("genp", "c09", 2500, 30000, None)],
         "post": "c12_layer2",
         "rule": (
             "one case = a generated design program built and exported in 4-6 pristine children that differ only in the scheduler's "
